@@ -561,8 +561,9 @@ func (db *Database) performFuzzySearch(query string, options SearchOptions) []Se
 			break
 		}
 
-		// Apply fuzzy threshold
-		if options.FuzzyThreshold > 0 && match.Score < options.FuzzyThreshold {
+		// Apply fuzzy threshold (0 = none; match scores are usually negative,
+		// so the threshold the CLI passes, -30, is negative too)
+		if options.FuzzyThreshold != 0 && match.Score < options.FuzzyThreshold {
 			continue
 		}
 
